@@ -32,14 +32,22 @@ CONSTANTS TopicSeq,        \* sequence of topic names, e.g. <<"tk","tu">>
           DevLeaseCheckSkipped, \* deviation: Produce ignores the lease result
           DevFetchAclOnRequestName, \* deviation: Fetch authorizes the request's name field (empty when the topic is addressed by id)
           DevStaleOwnedOnSessionReplace, \* deviation: replacing a dead lease session keeps the old ownership map
+          DevAclCacheNoAction,  \* deviation: topic ACL decisions are memoized per (principal, topic) without the action
+          MidOn,                \* TRUE: generate previous-incarnation keys and produces with an environment step between the lease
+                                \*       transaction and the processing of its reply (scheduler gate lease.afterTxn)
+          DevLateAcquireAfterRelease, \* deviation: an acquire whose transaction committed before ReleaseAll still records ownership
+          DevReacquireUnconditional,  \* deviation: reacquire overwrites the key without checking that it still names this broker
           DevLeaseErrMisindexed \* deviation: AcquireAll stores the k-th acquire result at request position k (not at the
                                 \*            position of the partition it belongs to) when owned partitions are skipped
 VARIABLES auto, topics, nparts, recs, opened, health, storeUp, etcdOwner, aOwns, closed, leaseDown,
+          aclCache,    \* (deviation DevAclCacheNoAction only) memoized topic decisions: set of [p, t, d]
+          bOwns,       \* partitions the other broker's manager records as owned
+          a0Used,      \* a previous-incarnation key has been planted in this schedule
           sessDead,    \* the broker's lease session has expired in etcd and the manager has not processed it yet
           monParked,   \* the manager's session monitor for that session has not run yet
           last, nreq, nenv, done, hist
-lvars == <<sessDead, monParked>>
-vars == <<auto, topics, nparts, recs, opened, health, storeUp, etcdOwner, aOwns, closed, leaseDown, lvars, last, nreq, nenv, done, hist>>
+lvars == <<sessDead, monParked, a0Used, aclCache>>
+vars == <<auto, topics, nparts, recs, opened, health, storeUp, etcdOwner, aOwns, bOwns, closed, leaseDown, lvars, last, nreq, nenv, done, hist>>
 
 Topics == {TopicSeq[i] : i \in DOMAIN TopicSeq}
 PartIds == 0..(NP - 1)
@@ -75,6 +83,8 @@ Denied(api, perms, name, names) ==
   ELSE IF a = "admin" THEN ~IsAdmin(perms)
   ELSE IF api \in AllOrNothing THEN \E n \in names : ~Allowed(perms, a, n)
   ELSE IF api = "FetchById" /\ DevFetchAclOnRequestName THEN ~Allowed(perms, a, "")
+  ELSE IF DevAclCacheNoAction /\ a \in {"produce", "fetch"} /\ \E c \in aclCache : c.p = perms /\ c.t = name
+       THEN ~(CHOOSE c \in aclCache : c.p = perms /\ c.t = name).d
   ELSE ~Allowed(perms, a, name)
 MayCreate(perms, n) == IsAdmin(perms) \/ Allowed(perms, "produce", n) \/ Allowed(perms, "fetch", n)
 
@@ -94,6 +104,9 @@ PermChoices(api, names) ==
       denies == IF RichPerms THEN {D \in SUBSET specific : D # {} /\ Cardinality(D) <= 2} ELSE {D \in {specific} : D # {}}
   IN \* allow rules only, default deny
      {Acl(S \cup x, {}, FALSE) : S \in subs, x \in {{}, others}}
+     \* principals that occur unchanged in requests of every type: everything but one topic action / one topic action denied on one topic
+     \cup {Acl(AllAtoms \ ({a} \X (Topics \cup {"*"})), {}, FALSE) : a \in {"produce", "fetch"}}
+     \cup (IF RichPerms THEN {Acl(AllAtoms, {<<a, t>>}, FALSE) : a \in {"produce", "fetch"}, t \in Topics} ELSE {})
      \* everything allowed by rules, some names denied explicitly (deny rules win)
      \cup {Acl(AllAtoms, D, FALSE) : D \in denies}
      \* default policy allow, some names denied explicitly
@@ -137,13 +150,13 @@ Init == /\ auto \in AutoSet
         /\ recs = [x \in TP |-> 0] /\ opened = {}
         /\ health = "healthy" /\ storeUp = TRUE
         /\ etcdOwner = [x \in TP |-> ""] /\ aOwns = {} /\ closed = FALSE /\ leaseDown = FALSE
-        /\ sessDead = FALSE /\ monParked = FALSE
+        /\ sessDead = FALSE /\ monParked = FALSE /\ bOwns = {} /\ a0Used = FALSE /\ aclCache = {}
         /\ last = [api |-> "init", perms |-> Acl({}, {}, FALSE), leasing |-> Leasing, storeUp |-> TRUE, leaseUp |-> TRUE, items |-> <<>>, changed |-> {}]
         /\ nreq = 0 /\ nenv = 0 /\ done = FALSE /\ hist = <<>>
 
 \* ---------------------------------------------------------------- building blocks
 Item(name, part, code, data, o0, o1s, o1) ==
-  [name |-> name, part |-> part, code |-> code, data |-> data, replied |-> TRUE, owner0 |-> o0, owns1 |-> o1s, owner1 |-> o1]
+  [name |-> name, part |-> part, code |-> code, data |-> data, replied |-> TRUE, owner0 |-> o0, owns1 |-> o1s, owner1 |-> o1, foreign |-> FALSE]
 Plain(name, part, code) == Item(name, part, code, FALSE, "", FALSE, "")
 Ch(k, n, p) == [k |-> k, n |-> n, p |-> p]
 BackpressureCode == IF health = "degraded" THEN 7 ELSE -1
@@ -163,17 +176,17 @@ LeaseOutcome(x) ==
   ELSE IF closed THEN "shut"
   ELSE IF x \in aOwns THEN "owned"
   ELSE IF leaseDown THEN "err"
-  ELSE IF etcdOwner[x] \notin {"", Self} THEN "other"
+  ELSE IF etcdOwner[x] \notin {"", Self, "A0"} THEN "other"
   ELSE "acq"
 
 \* ---------------------------------------------------------------- Produce
 \* returns [st, item, ch] for partition x = <<t, p>> given the threaded state
-ProduceOne(st, perms, t, p, names, ownsAfter, ownerAfter, lo) ==
+ProduceOne(st, perms, t, p, names, ownsAfter, ownerAfter, foreignAfter, lo) ==
   LET x == <<t, p>>
       o0 == IF Leasing THEN etcdOwner[x] ELSE ""
       o1s == Leasing /\ x \in ownsAfter
       o1 == IF Leasing THEN ownerAfter[x] ELSE ""
-      mk(code) == Item(t, p, code, FALSE, o0, o1s, o1)
+      mk(code) == [Item(t, p, code, FALSE, o0, o1s, o1) EXCEPT !.foreign = Leasing /\ x \in foreignAfter]
       denied == Denied("Produce", perms, t, names)
       leaseBad == lo \in {"other", "shut", "err"} /\ ~DevLeaseCheckSkipped
       leaseCode == IF lo = "err" THEN 7 ELSE 6
@@ -200,7 +213,7 @@ LeaseSeen(tg, i) ==
 RECURSIVE ProduceAll(_, _, _, _, _, _, _)
 ProduceAll(st, perms, tg, i, names, ownsAfter, ownerAfter) ==
   IF i > Len(tg) THEN [st |-> st, items |-> <<>>, ch |-> {}]
-  ELSE LET r == ProduceOne(st, perms, tg[i][1], tg[i][2], names, ownsAfter, ownerAfter, LeaseSeen(tg, i))
+  ELSE LET r == ProduceOne(st, perms, tg[i][1], tg[i][2], names, ownsAfter, ownerAfter, bOwns, LeaseSeen(tg, i))
            rest == ProduceAll(r.st, perms, tg, i + 1, names, ownsAfter, ownerAfter)
        IN [st |-> rest.st, items |-> <<r.item>> \o rest.items, ch |-> r.ch \cup rest.ch]
 
@@ -315,51 +328,89 @@ Req(api, tg, perms) ==
          r == Outcome(api, perms, tg, ownsAfter, ownerAfter)
      IN /\ aOwns' = ownsAfter /\ etcdOwner' = ownerAfter
         /\ sessDead' = (sessDead /\ ~replaced) /\ monParked' = monParked
+        /\ aclCache' = IF DevAclCacheNoAction /\ api \in {"Produce", "Fetch", "FetchById"}
+                        THEN aclCache \cup {[p |-> perms, t |-> n, d |-> Allowed(perms, ChkAction(api), n)] :
+                                              n \in {m \in NamesOf(tg) : ~\E c \in aclCache : c.p = perms /\ c.t = m}}
+                        ELSE aclCache
         /\ topics' = r.st.topics /\ nparts' = r.st.nparts /\ recs' = r.st.recs /\ opened' = r.st.opened
         /\ last' = [api |-> WireApi(api), perms |-> perms, leasing |-> Leasing, storeUp |-> storeUp, leaseUp |-> ~leaseDown, items |-> r.items, changed |-> r.ch]
         /\ done' = (api = "DeleteTopics" /\ r.items[1].code = 0)     \* a schedule ends after a successful topic deletion
   /\ nreq' = nreq + 1
   /\ hist' = Append(hist, [a |-> "Req", api |-> api, tg |-> tg, perms |-> perms])
-  /\ UNCHANGED <<auto, health, storeUp, closed, leaseDown, nenv>>
+  /\ UNCHANGED <<auto, health, storeUp, closed, leaseDown, nenv, bOwns, a0Used>>
 
 \* ---------------------------------------------------------------- environment
 Env(name, arg) == /\ nenv < MaxEnv /\ ~done /\ nenv' = nenv + 1
                   /\ hist' = Append(hist, [a |-> name, arg |-> arg])
                   /\ last' = [last EXCEPT !.api = "env", !.items = <<>>, !.changed = {}]
 SetHealth(h) == /\ h # health /\ Env("SetHealth", h) /\ health' = h
-                /\ UNCHANGED <<auto, topics, nparts, recs, opened, storeUp, etcdOwner, aOwns, closed, leaseDown, lvars, nreq, done>>
+                /\ UNCHANGED <<auto, topics, nparts, recs, opened, storeUp, etcdOwner, aOwns, bOwns, closed, leaseDown, lvars, nreq, done>>
 SetStore(b) == /\ b # storeUp /\ Env("SetStore", IF b THEN "up" ELSE "down") /\ storeUp' = b
-               /\ UNCHANGED <<auto, topics, nparts, recs, opened, health, etcdOwner, aOwns, closed, leaseDown, lvars, nreq, done>>
+               /\ UNCHANGED <<auto, topics, nparts, recs, opened, health, etcdOwner, aOwns, bOwns, closed, leaseDown, lvars, nreq, done>>
 \* another broker's lease manager acquires a free partition
 ForeignAcquire(i) == /\ Leasing /\ etcdOwner[PartSeq[i]] = "" /\ Env("ForeignAcquire", ToString(i))
-                     /\ etcdOwner' = [etcdOwner EXCEPT ![PartSeq[i]] = "B"]
+                     /\ etcdOwner' = [etcdOwner EXCEPT ![PartSeq[i]] = "B"] /\ bOwns' = bOwns \cup {PartSeq[i]}
                      /\ UNCHANGED <<auto, topics, nparts, recs, opened, health, storeUp, aOwns, closed, leaseDown, lvars, nreq, done>>
+\* the broker's previous incarnation (same broker id, its own etcd lease, still alive) left a lease key behind
+OldIncarnation(i) == /\ Leasing /\ MidOn /\ ~a0Used /\ etcdOwner[PartSeq[i]] = "" /\ Env("OldIncarnation", ToString(i))
+                     /\ etcdOwner' = [etcdOwner EXCEPT ![PartSeq[i]] = "A0"] /\ a0Used' = TRUE
+                     /\ UNCHANGED <<auto, topics, nparts, recs, opened, health, storeUp, aOwns, bOwns, closed, leaseDown, sessDead, monParked, aclCache, nreq, done>>
 \* graceful shutdown: ReleaseAll (session closed, keys revoked)
 CloseLease == /\ Leasing /\ ~closed /\ ~leaseDown /\ ~sessDead /\ ~monParked /\ Env("CloseLease", "")
               /\ closed' = TRUE /\ aOwns' = {}
               /\ etcdOwner' = [x \in TP |-> IF etcdOwner[x] = Self THEN "" ELSE etcdOwner[x]]
-              /\ UNCHANGED <<auto, topics, nparts, recs, opened, health, storeUp, leaseDown, lvars, nreq, done>>
+              /\ UNCHANGED <<auto, topics, nparts, recs, opened, health, storeUp, bOwns, leaseDown, lvars, nreq, done>>
 \* the lease manager loses etcd (client cut off): session dies, local ownership is cleared, keys stay until the TTL
 LeaseDown == /\ Leasing /\ ~closed /\ ~leaseDown /\ ~sessDead /\ ~monParked /\ Env("LeaseDown", "")
              /\ leaseDown' = TRUE /\ aOwns' = {}
-             /\ UNCHANGED <<auto, topics, nparts, recs, opened, health, storeUp, etcdOwner, closed, lvars, nreq, done>>
+             /\ UNCHANGED <<auto, topics, nparts, recs, opened, health, storeUp, etcdOwner, bOwns, closed, lvars, nreq, done>>
 \* the broker's lease session expires in etcd (lease revoked: all its keys vanish); the manager's monitor goroutine for
 \* that session has not run yet (scheduler gate lease.monitor), so the manager still lists the partitions as owned
 SessionExpire == /\ Leasing /\ ~closed /\ ~leaseDown /\ ~sessDead /\ ~monParked /\ aOwns # {} /\ Env("SessionExpire", "")
                  /\ sessDead' = TRUE /\ monParked' = TRUE
                  /\ etcdOwner' = [x \in TP |-> IF etcdOwner[x] = Self THEN "" ELSE etcdOwner[x]]
-                 /\ UNCHANGED <<auto, topics, nparts, recs, opened, health, storeUp, aOwns, closed, leaseDown, nreq, done>>
+                 /\ UNCHANGED <<auto, topics, nparts, recs, opened, health, storeUp, aOwns, bOwns, closed, leaseDown, a0Used, aclCache, nreq, done>>
 \* monitorSession runs: it clears the ownership map only if the dead session is still the manager's current session
 MonitorRun == /\ Leasing /\ monParked /\ Env("MonitorRun", "")
               /\ monParked' = FALSE /\ sessDead' = FALSE
               /\ aOwns' = IF sessDead THEN {} ELSE aOwns
-              /\ UNCHANGED <<auto, topics, nparts, recs, opened, health, storeUp, etcdOwner, closed, leaseDown, nreq, done>>
+              /\ UNCHANGED <<auto, topics, nparts, recs, opened, health, storeUp, etcdOwner, bOwns, closed, leaseDown, a0Used, aclCache, nreq, done>>
+
+\* ---------------------------------------------------------------- a produce with an environment step inside its lease acquisition
+\* One Produce for a single partition x the manager does not own.  doAcquire commits its lease transaction, then (gate
+\* lease.afterTxn) the environment moves before the reply is processed:
+\*   "ReleaseForeign"   (x was free, the transaction wrote the key): ReleaseAll runs (shutdown: session closed, keys revoked) and the
+\*                      other broker acquires x.  The late reply finds m.session # its session: "session changed" -> 7, no append.
+\*   "ExpireOldForeign" (x carried the previous incarnation's key, the transaction read owner = self): the old lease expires and the
+\*                      other broker acquires x.  reacquire's guarded write fails -> ErrNotOwner -> 6, no append.
+ReqMid(i, perms, mid) ==
+  LET x == PartSeq[i]
+      tg == << <<x[1], x[2]>> >>
+      rel == mid = "ReleaseForeign"
+      lateOwn == (rel /\ DevLateAcquireAfterRelease) \/ (~rel /\ DevReacquireUnconditional)
+      ownsAfter == (IF rel THEN {} ELSE aOwns) \cup (IF lateOwn THEN {x} ELSE {})
+      ownerAfter == [y \in TP |-> IF y = x THEN (IF ~rel /\ DevReacquireUnconditional THEN Self ELSE "B")
+                                  ELSE IF rel /\ etcdOwner[y] = Self THEN "" ELSE etcdOwner[y]]
+      foreignAfter == bOwns \cup {x}
+      lo == IF lateOwn THEN "acq" ELSE IF rel THEN "err" ELSE "other"
+      r == ProduceOne(St0, perms, x[1], x[2], {x[1]}, ownsAfter, ownerAfter, foreignAfter, lo)
+  IN /\ Leasing /\ MidOn /\ nreq < MaxReq /\ ~done /\ ~closed /\ ~leaseDown /\ ~sessDead /\ ~monParked
+     /\ x \notin aOwns /\ ValidTargets("Produce", tg)
+     /\ etcdOwner[x] = (IF rel THEN "" ELSE "A0")
+     /\ aOwns' = ownsAfter /\ etcdOwner' = ownerAfter /\ bOwns' = foreignAfter /\ closed' = (closed \/ rel)
+     /\ topics' = r.st.topics /\ nparts' = r.st.nparts /\ recs' = r.st.recs /\ opened' = r.st.opened
+     /\ last' = [api |-> "Produce", perms |-> perms, leasing |-> Leasing, storeUp |-> storeUp, leaseUp |-> TRUE, items |-> << r.item >>, changed |-> r.ch]
+     /\ nreq' = nreq + 1 /\ done' = done
+     /\ hist' = Append(hist, [a |-> "ReqMid", api |-> "Produce", tg |-> tg, perms |-> perms, mid |-> mid])
+     /\ UNCHANGED <<auto, health, storeUp, leaseDown, lvars, nenv>>
 
 Next == \/ \E api \in Apis : \E tg \in Targets(api) : \E perms \in PermChoices(api, NamesOf(tg)) : Req(api, tg, perms)
         \/ \E h \in {"healthy", "degraded", "unavailable"} : SetHealth(h)
         \/ \E b \in BOOLEAN : SetStore(b)
         \/ \E i \in 1..NPart : ForeignAcquire(i)
         \/ CloseLease \/ LeaseDown \/ SessionExpire \/ MonitorRun
+        \/ \E i \in 1..NPart : OldIncarnation(i)
+        \/ \E i \in 1..NPart : \E perms \in PermChoices("Produce", {PartSeq[i][1]}) : \E mid \in {"ReleaseForeign", "ExpireOldForeign"} : ReqMid(i, perms, mid)
 Spec == Init /\ [][Next]_vars
 
 \* ---------------------------------------------------------------- properties (HandlerProps, instantiated with the prediction)
@@ -373,8 +424,9 @@ C19_RefusalCode == P!C19_RefusalCode
 C19_NotLeaderForOtherOwner == P!C19_NotLeaderForOtherOwner
 \* internal facts
 OwnsImpliesKey == (~sessDead /\ ~DevStaleOwnedOnSessionReplace) => \A x \in aOwns : etcdOwner[x] = Self
+Exclusive == (~DevReacquireUnconditional /\ ~DevLateAcquireAfterRelease /\ ~DevStaleOwnedOnSessionReplace /\ ~sessDead) => aOwns \cap bOwns = {}
 KnownHavePartitions == \A t \in Topics : (t \in topics) = (nparts[t] > 0)
 
-View == <<auto, topics, nparts, recs, opened, health, storeUp, etcdOwner, aOwns, closed, leaseDown, lvars, last, nreq, nenv, done>>
+View == <<auto, topics, nparts, recs, opened, health, storeUp, etcdOwner, aOwns, bOwns, closed, leaseDown, lvars, last, nreq, nenv, done>>
 EmitSched == PrintT(<<"SCHED", ToJson([auto |-> auto, leasing |-> Leasing, steps |-> hist])>>)
 ====
